@@ -114,9 +114,17 @@ def check_case(case):
                 arr = np.transpose(base, np.argsort(order)) if False else np.moveaxis(base, 2, ax)
                 exp = np.moveaxis(bexp, 2, ax)
             inputs, exps = [arr], [exp]
-        for x, e in zip(inputs, exps):
+        layouts_mem = ["C"] if rank == 1 else ["C", "F", "strided"]
+        for (x, e), mem in [(pair, m) for pair in zip(inputs, exps) for m in layouts_mem]:
             xin = np.ascontiguousarray(x).astype(dt)
-            sub = {"rank": rank, "axis": axis, "shape": list(xin.shape)}
+            if mem == "F":
+                xin = np.asfortranarray(xin)
+            elif mem == "strided":
+                big = np.zeros(tuple(2 * s_ for s_ in xin.shape), dtype=xin.dtype)
+                big[tuple(slice(None, None, 2) for _ in xin.shape)] = xin
+                xin = big[tuple(slice(None, None, 2) for _ in xin.shape)]      # non-contiguous view with the same content
+                res.hits["non-contiguous input"] += 1
+            sub = {"rank": rank, "axis": axis, "shape": list(xin.shape), "memory": mem}
             try:
                 out = f(xin, axis=axis)
             except Exception as ex:
@@ -125,7 +133,7 @@ def check_case(case):
                 continue
             res.transitions += 1
             res.traces += 1
-            res.state((N, str(dt), rank, axis, xin.shape))
+            res.state((N, str(dt), rank, axis, xin.shape, mem))
             want_shape = list(xin.shape)
             want_shape[ax] = M
             if out.dtype != want_dtype:
@@ -196,7 +204,7 @@ def check_case(case):
 def main(argv=None):
     return report.run_check(
         PID, gen_cases=gen_cases, check_case=check_case, describe=describe,
-        required_hits=["N = 0", "N = 1", "negative axis", "middle axis of rank 3", "complex refused", "tone mapped"],
+        required_hits=["N = 0", "N = 1", "non-contiguous input", "negative axis", "middle axis of rank 3", "complex refused", "tone mapped"],
         assumptions=["budget 8 eps max(N,4) max|x| with eps = single precision for float16/float32 input (scipy.fft computes half-precision input in single precision) and double otherwise"],
         argv=argv)
 
